@@ -12,8 +12,15 @@ class PyExprError(Exception):
 
 
 def to_sympy(node, rename=None, funcs=None):
-    rename = rename or {}
+    rename = dict(rename or {})
     funcs = funcs or {}
+    # names in `rename` are the pinned tree's local names; alias locals are resolved in the program (engine/alpha.py)
+    from . import alpha
+    _key, _al = alpha.pattern_aliases(node)
+    for k in list(rename):
+        r = k.split(".")[0]
+        if r in _al:
+            rename.setdefault(_al[r] + k[len(r):], rename[k])
 
     def w(n):
         if isinstance(n, ast.Constant) and isinstance(n.value, (int, float)) and not isinstance(n.value, bool):
